@@ -33,6 +33,7 @@ type CheckCfg struct {
 	Assumptions    []string `json:"assumptions"`
 	Bounds         map[string]string `json:"bounds"`
 	Workers        int      `json:"workers"`
+	ConcIndexMax   int      `json:"concretize_index_max"` // symbolic indices into slices/arrays of at most this many cells are forked over instead of merged
 }
 
 func loadChecks() (map[string]*CheckCfg, error) {
@@ -244,7 +245,7 @@ func cmdCheck(args []string) int {
 	var results []*HarnessResult
 	for _, fn := range fns {
 		h := &Harness{Name: fn.Name(), Prop: id, Pkg: cfg.Pkg, Tier: tierN, MapOrderMax: cfg.MapOrderMax, MaxThreads: cfg.MaxThreads,
-			MaxSchedPoints: cfg.MaxSchedPoints, MaxDecisions: cfg.MaxDecisions, KnownActive: knownActive}
+			MaxSchedPoints: cfg.MaxSchedPoints, MaxDecisions: cfg.MaxDecisions, KnownActive: knownActive, ConcIndexMax: cfg.ConcIndexMax}
 		if h.MaxThreads == 0 {
 			h.MaxThreads = 8
 		}
